@@ -104,7 +104,9 @@ class SourceIndex:
                     ci = ClassInfo(module, node.name, node)
                     ci.qualprefix = prefix + node.name + "."
                     self.classes[(module, prefix + node.name)] = ci
-                    self.class_by_name[node.name] = ci
+                    # nested classes (e.g. report.FileTree.Node) are known by their qualified
+                    # name only, so that they cannot shadow a top-level class of the same name
+                    self.class_by_name[(prefix + node.name) if prefix else node.name] = ci
                     for st in node.body:
                         if isinstance(st, ast.Assign) and len(st.targets) == 1 and isinstance(st.targets[0], ast.Name):
                             ci.class_assigns[st.targets[0].id] = st.value
